@@ -20,6 +20,30 @@ import (
 // in a sibling field of the same literal, and two identity fields never derive
 // from the same identity call. Dense-id maps follow the idiom
 // `v, ok := M[k]; if !ok { v = len(M); M[k] = v }` on one map and one key.
+// isInternHelper: h(m map[K]int, key K) int looks key up in m and, when absent, inserts len(m) under it.
+func isInternHelper(h *ssa.Function) bool {
+	if len(h.Params) != 2 || h.Signature.Results().Len() != 1 || !isInt(h.Signature.Results().At(0).Type()) {
+		return false
+	}
+	if _, isMap := h.Params[0].Type().Underlying().(*types.Map); !isMap {
+		return false
+	}
+	look, upd := false, false
+	core.EachInstr(h, func(i ssa.Instruction) {
+		switch x := i.(type) {
+		case *ssa.Lookup:
+			if x.CommaOk && x.X == ssa.Value(h.Params[0]) && x.Index == ssa.Value(h.Params[1]) {
+				look = true
+			}
+		case *ssa.MapUpdate:
+			if x.Map == ssa.Value(h.Params[0]) && x.Key == ssa.Value(h.Params[1]) {
+				upd = true
+			}
+		}
+	})
+	return look && upd
+}
+
 var identityMemo []*ssa.Lookup
 var identityPartial []*ssa.Call
 var identityBusy = map[*ssa.Function]bool{}
@@ -64,6 +88,15 @@ func identityCalls(v ssa.Value) []*ssa.Call {
 				}
 			}
 		}
+		// through an interning helper `internID(ids map[K]int, key K) int`: the key argument
+		if cl, ok := x.(*ssa.Call); ok {
+			if h := cl.Call.StaticCallee(); h != nil && len(h.Blocks) > 0 && encPkg(core.FnPkgPath(h)) && len(cl.Call.Args) == 2 && isInternHelper(h) {
+				for _, c2 := range identityCalls(cl.Call.Args[1]) {
+					out = append(out, c2)
+				}
+				return false
+			}
+		}
 		// through a dense-id map: the looked-up key
 		if lk, ok := x.(*ssa.Lookup); ok {
 			viaKey := identityCalls(lk.Index)
@@ -85,9 +118,16 @@ func identityCalls(v ssa.Value) []*ssa.Call {
 func rt_24(c *core.Ctx, p *core.Prog) {
 	reach := encodeReach(p)
 	n := 0
+	seenOrigin24 := map[*ssa.Function]bool{}
 	for _, fn := range sortedFuncs(p, reach) {
-		if !encPkg(core.FnPkgPath(fn)) || fn.Synthetic != "" {
+		if !encPkg(core.FnPkgPath(fn)) || (fn.Synthetic != "" && fn.Origin() == nil) {
 			continue
+		}
+		if o := fn.Origin(); o != nil {
+			if seenOrigin24[o] {
+				continue
+			}
+			seenOrigin24[o] = true
 		}
 		fn := fn
 		core.EachInstr(fn, func(i ssa.Instruction) {
@@ -175,8 +215,26 @@ func rt_24(c *core.Ctx, p *core.Prog) {
 			if !ok || !lk.CommaOk {
 				return
 			}
-			if _, isMap := lk.X.Type().Underlying().(*types.Map); !isMap || len(identityCalls(lk.Index)) == 0 {
+			if _, isMap := lk.X.Type().Underlying().(*types.Map); !isMap {
 				return
+			}
+			if len(identityCalls(lk.Index)) == 0 {
+				// the idiom inside an interning helper: the key is a parameter; it counts when a call site hands it an identity
+				prm, isP := lk.Index.(*ssa.Parameter)
+				if !isP || !isInternHelper(fn) || prm != fn.Params[1] {
+					return
+				}
+				fed := false
+				for g := range reach {
+					core.EachCall(g, func(ci ssa.CallInstruction) {
+						if ci.Common().StaticCallee() == fn && len(ci.Common().Args) == 2 && len(identityCalls(ci.Common().Args[1])) > 0 {
+							fed = true
+						}
+					})
+				}
+				if !fed {
+					return
+				}
 			}
 			n++
 			var msgs []string
